@@ -319,7 +319,7 @@ CHECKS = {
               "runtime model on random mark programs: abort/return and the ovni.mark metadata written; (B) independent "
               "Python-written traces with per-thread definitions and single conflicts, mark events interleaved with state "
               "changes: real ovniemu -l vs the Lean reference emulator (verdict, failing event, rows 100..199, PCF titles "
-              "and labels) and vs an independent oracle. Known finding: label values beyond C int (see KNOWN_FINDINGS.txt)."),
+              "and labels) and vs an independent oracle. Defect found and repaired: label values beyond C int were truncated in the PCF module."),
         note=TB + "; JSON decoding of the metadata (parson) is outside the model",
         technique="Lean 4 guard/merge theorems over transcriptions of the mark API and mark.c + differential runs of libovni and ovniemu",
         design="DESIGN.md §5 C17"),
